@@ -42,10 +42,20 @@ def crash(topo, cfg, culprit, kind, stage):
                 st['raised'] = True
                 raise make_exc(kind)
             return r
-        r = sysrun.run_world(eng, topo, cfg, fault=fault, rules=())
+        fin = cfg.get('fin_fault')
+        if fin is not None:
+            # the simulator `fin` fails in finalize() (kind 'finalize': that is its only failure; else: the culprit has already failed in a
+            # request and then its finalize() fails as well)
+            sysrun.CTX_EXTRA = {'fin_fault': fin}
+        try:
+            r = sysrun.run_world(eng, topo, cfg, fault=fault if kind != 'finalize' else None, rules=())
+        finally:
+            sysrun.CTX_EXTRA = {}
+        if kind == 'finalize' and sysrun.CTX.get('fin_fired'):
+            st['fired'] = ('finalize', culprit)
         log, loop = r.log, r.loop
         fp = [topo['name'], culprit, kind, stage]
-        desc = f"{topo['name']} culprit={culprit} kind={kind}/{stage} at request {st['fired']} sync={cfg.get('sync')}"
+        desc = f"{topo['name']} culprit={culprit} kind={kind}/{stage} at request {st['fired']} sync={cfg.get('sync')}" + (f' finalize() of {fin} raises' if fin else '')
         if st['fired'] is None:
             return ('nofault:' + str(r.outcome), {'nontrivial': False})
         if r.outcome in ('deadlock', 'livelock'):
@@ -364,6 +374,15 @@ def jobs(tier):
                             cfg.update({'no_self': ['A', 'B'], 'until': 2, 'K': 3})
                         out.append({'id': f"{name}|{culprit}|{kind}|{stage}|sync={''.join(sync) or '-'}|lazy={int(lazy)}", 'harness': 'vk.kernels.c14:crash',
                                     'params': {'topo': t, 'cfg': cfg, 'culprit': culprit, 'kind': kind, 'stage': stage}, 'budget_s': 300})
+    # a simulator whose finalize() raises: as its only failure (the run itself is fine), or after it has failed in a request
+    for name, culprits, lazy in plans if not q else plans[:2] + plans[5:6]:
+        t = cur[name]
+        for culprit in culprits:
+            for kind in ('finalize', 'raise'):
+                for sync in [[], sorted(t['types'])] if len(t['types']) <= 2 else [[]]:
+                    cfg = {'until': 3, 'K': 2, 'cache': True, 'lazy': lazy, 'D': 0, 'sync': sync, 'salt': 0, 'fin_fault': culprit}
+                    out.append({'id': f"{name}|{culprit}|{kind}+finalize|sync={''.join(sync) or '-'}|lazy={int(lazy)}", 'harness': 'vk.kernels.c14:crash',
+                                'params': {'topo': t, 'cfg': cfg, 'culprit': culprit, 'kind': kind, 'stage': 'after'}, 'budget_s': 300})
     # remote transport in memory (vk.remote): handler failure, process exit before / after handling a request
     rplans = [('tb2', ['A', 'B'], [['A', 'B']], True), ('hyb2', ['A'], [['A', 'B'], ['A']], True), ('tb_ev', ['A'], [['A', 'B']], True),
               # without lazy stepping both simulators can be inside a request when one of them fails
